@@ -25,4 +25,9 @@ func zzH08a() {
 	if !term {
 		zzAssert(len(st.fwdCalls) == 0, "reload-does-nothing")
 	}
+	// C04 on the final path: the final RA's own zero lifetime is not a
+	// misconfiguration: with forwarding enabled nothing is reported
+	if len(conn.writes) == 1 && len(st.fwdValues) == 1 {
+		zzAssert(zzImplies(st.fwdValues[0], zzLogCount("not configured for IPv6 forwarding") == 0), "no-misconfiguration-reported-for-the-final-ra-while-forwarding")
+	}
 }
